@@ -250,8 +250,9 @@ fn run_inner(cx: &Cx, only: Option<&J>) {
             if let Some(v) = variant(format!("{name} / {l1}"), e1.clone(), encs[0], &build_failures) {
                 variants.push(v);
             }
-            if !quick && *name != "D(S1)" {
-                for (l2, e2) in edits(&e1) {
+            // pairs of edits: only for the small leaves exemplar (the chain's pair family alone is > 10^4 schemas)
+            if !quick && *name == "leaves" {
+                for (l2, e2) in edits(&e1).into_iter().step_by(4) {
                     if let Some(v) = variant(format!("{name} / {l1} / {l2}"), e2, encs[0], &build_failures) {
                         variants.push(v);
                     }
